@@ -33,8 +33,9 @@ type c13query struct {
 	// pg: built with PostgresEscapingDialect; expect: the rows the query must return alone (rendered),
 	// checked in addition to "same as the solo run" - a solo run can itself be a victim of state left
 	// behind by the solo run of the other thread
-	pg     bool
-	expect string
+	pg       bool
+	expect   string
+	expectFn func() []string // the same, computed from the document
 }
 
 var c13Queries = []c13query{
@@ -72,7 +73,26 @@ var c13Queries = []c13query{
 	{name: "async-nested-from-filtered", sql: "SELECT id, ASYNC.HFAST(a) AS f FROM m WHERE HMID(a) > 0", single: true},
 	{name: "vars-async-reader", sql: "SELECT id, SETVAR('k', id), SPINASYNC.HPEEK('k'), GETVAR('k') AS g FROM t", single: true},
 	{name: "vars-async-writer", sql: "SELECT id, GETVAR('k') AS g0, SPINASYNC.HPOKE('j', id), SETVAR('k', id), GETVAR('k') AS g FROM t", single: true},
-	{name: "join-right-derived-async", sql: "SELECT * FROM t x JOIN (SELECT rid, ASYNC.HMID(b) AS v FROM u) y ON x.id = y.rid", single: true, bag: true},
+	{name: "join-right-derived-async", sql: "SELECT * FROM t x JOIN (SELECT rid, ASYNC.HMID(b) AS v FROM u) y ON x.id = y.rid", single: true, bag: true, expectFn: func() []string {
+		d := c13Doc()
+		var out []string
+		for i, row := range d["t"].([]any) {
+			u := d["u"].([]any)[i].(map[string]any)
+			out = append(out, gq.Render(map[string]any{"x": row, "y": map[string]any{"rid": u["rid"], "v": u["b"].(float64) + 100}}))
+		}
+		sort.Strings(out)
+		return out
+	}},
+	{name: "join-left-derived-async", sql: "SELECT * FROM (SELECT rid, ASYNC.HMID(b) AS v FROM u) y JOIN t x ON x.id = y.rid", single: true, bag: true, expectFn: func() []string {
+		d := c13Doc()
+		var out []string
+		for i, row := range d["t"].([]any) {
+			u := d["u"].([]any)[i].(map[string]any)
+			out = append(out, gq.Render(map[string]any{"x": row, "y": map[string]any{"rid": u["rid"], "v": u["b"].(float64) + 100}}))
+		}
+		sort.Strings(out)
+		return out
+	}},
 	{name: "async-in-subquery", sql: "SELECT id, (SELECT ASYNC.HMID(q) AS m FROM items) AS s FROM t", single: true},
 	{name: "async-in-cte-twice", sql: "WITH c AS (SELECT id, ASYNC.HFAST(a) AS f FROM t) SELECT id FROM c UNION ALL SELECT id FROM c", single: true},
 }
@@ -243,6 +263,10 @@ func (p *c13) RunCase(i int) *core.CaseResult {
 		if c13Queries[c.qs[k]].bag {
 			sort.Strings(solo[k])
 		}
+		if f := c13Queries[c.qs[k]].expectFn; f != nil && !gq.SameSeq(solo[k], f()) {
+			r.Fail(p.sig(c, "solo-wrong"), fmt.Sprintf("%s alone returned %v, want %v", sqls[k], solo[k], f()), map[string]any{"sql": sqls[k]})
+			return r
+		}
 		if e := c13Queries[c.qs[k]].expect; e != "" && strings.Join(solo[k], ";") != e {
 			r.Fail(p.sig(c, "solo-wrong"), fmt.Sprintf("%s alone (after the solo runs of the threads before it) returned %v, want %s", sqls[k], solo[k], e), map[string]any{"sql": sqls[k]})
 			return r
@@ -363,7 +387,7 @@ func (p *c13) RunCase(i int) *core.CaseResult {
 
 func (p *c13) Meta() core.Meta {
 	return core.Meta{
-		Rule: "one case per harness: 1 query alone (internal parallelism), or every unordered pair (thorough: also triples over a 7-query subset) of 21 queries, plus 7 single-only harnesses (ASYNC in a nested FROM with several inner arrays, ASYNC / SPINASYNC readers and writers of the variable store next to SETVAR / GETVAR, ASYNC inside a row-scoped subquery and inside a CTE read twice) (filter, projection, fresh path selector, group-by, joins incl. PARALLEL hash and nested, ASYNC, SPINASYNC, CTE, IN-subquery, EXISTS, ORDER BY+DISTINCT, SETVAR/GETVAR, UNION and JOIN USING with the same text in every thread, GETVAR / SETVAR built without any option, one statement text with and without PostgresEscapingDialect) x {separate documents, one shared document} x {cold selector cache, warm cache}; each case = stateless exploration of every interleaving with <= 2 (thorough 3) preemptions at sync-operation granularity of the real engine under the -race build; oracle per schedule: no new race report, no deadlock / goroutine panic (scheduler), every thread's result equals its solo result. non-trivial = more than one schedule executed",
+		Rule: "one case per harness: 1 query alone (internal parallelism), or every unordered pair (thorough: also triples over a 7-query subset) of 21 queries, plus 8 single-only harnesses (ASYNC in a nested FROM with several inner arrays, ASYNC / SPINASYNC readers and writers of the variable store next to SETVAR / GETVAR, ASYNC inside a row-scoped subquery and inside a CTE read twice) (filter, projection, fresh path selector, group-by, joins incl. PARALLEL hash and nested, ASYNC, SPINASYNC, CTE, IN-subquery, EXISTS, ORDER BY+DISTINCT, SETVAR/GETVAR, UNION and JOIN USING with the same text in every thread, GETVAR / SETVAR built without any option, one statement text with and without PostgresEscapingDialect) x {separate documents, one shared document} x {cold selector cache, warm cache}; each case = stateless exploration of every interleaving with <= 2 (thorough 3) preemptions at sync-operation granularity of the real engine under the -race build; oracle per schedule: no new race report, no deadlock / goroutine panic (scheduler), every thread's result equals its solo result. non-trivial = more than one schedule executed",
 		Assumptions: []string{
 			"scheduling points at every Mutex/RWMutex/WaitGroup operation, go statement, thread exit and harness yield; unsynchronised accesses are covered by the happens-before race monitor on each explored schedule (DRF-SC)",
 			"the race detector reports each distinct race (stack pair) once per worker process; a report is attributed to the first case of that worker that exhibits it",
